@@ -68,6 +68,18 @@ func Func(ps []T, rs []T) T {
 func Struct(f T) T    { return T{K: "struct", NC: []string{}, P: -2, E: []T{f}, R: []T{}} }
 func IfaceT(p T) T    { return T{K: "iface", NC: []string{}, P: -2, E: []T{p}, R: []T{}} }
 func AliasT(n string) T { return T{K: "alias", N: n, NC: cs(n), P: -2, E: []T{}, R: []T{}} }
+
+// AliasIn: a type declared with `type N[...] = ...` in package p (go/types: *types.Alias)
+func AliasIn(p int, n string, args ...T) T {
+	if args == nil {
+		args = []T{}
+	}
+	return T{K: "alias", N: n, NC: cs(n), P: p, E: args, R: []T{}}
+}
+// StructEmbed / IfaceEmbed: literals that embed a named type (whose own methods or
+// fields may mention further packages the literal's text never names)
+func StructEmbed(f T) T { return T{K: "struct", N: "embed", NC: []string{}, P: -2, E: []T{f}, R: []T{}} }
+func IfaceEmbed(f T) T  { return T{K: "iface", N: "embed", NC: []string{}, P: -2, E: []T{f}, R: []T{}} }
 func TParam(n string) T { return T{K: "tparam", N: n, NC: cs(n), P: -2, E: []T{}, R: []T{}} }
 
 type Param struct {
@@ -142,9 +154,9 @@ func (r *renderer) typ(t T) string {
 	switch t.K {
 	case "basic":
 		return t.N
-	case "tparam", "alias":
+	case "tparam":
 		return t.N
-	case "named":
+	case "alias", "named":
 		q := ""
 		if t.P >= 0 {
 			q = r.qual(t.P)
@@ -191,8 +203,14 @@ func (r *renderer) typ(t T) string {
 		}
 		return s
 	case "struct":
+		if t.N == "embed" {
+			return "struct{ " + r.typ(t.E[0]) + "; N int }"
+		}
 		return "struct{ F " + r.typ(t.E[0]) + " }"
 	case "iface":
+		if t.N == "embed" {
+			return "interface{ " + r.typ(t.E[0]) + "; Extra() error }"
+		}
 		return "interface{ M(" + r.typ(t.E[0]) + ") }"
 	}
 	return "any"
@@ -337,5 +355,17 @@ type G[X any] struct{ V X }
 type I interface{ Do(T) U }
 
 type Num interface{ ~int | ~int64 }
+
+// alias declarations (go1.24: also generic ones, with non-named targets)
+type A = T
+
+type GA[X any] = map[string]X
+
+type Opt[X any] = *X
+
+type Pair[X any, Y any] struct {
+	L X
+	R Y
+}
 `, name)
 }
